@@ -168,6 +168,9 @@ ALLOWED = {
     # a zombie that is reaped (or refused) later in the same call
     "zombify+vanish": {"value", "ZombieProcess", "NoSuchProcess"},
     "zombie+vanish": {"value", "ZombieProcess", "NoSuchProcess"},
+    # a child / grandchild of the (live) object goes away while children()
+    # walks the table: it is skipped, the object itself is not "gone"
+    "relative-vanish": {"value"},
 }
 
 
@@ -237,6 +240,10 @@ def run_case(case):
             plans.append(("dying", kk, [simk.Fault(kk, "dying", PID)]))
         for kk in target_idx:
             plans.append(("deny", kk, [simk.Fault(kk, "deny", PID, deny_errno(log[kk]))]))
+        if mname in ("children", "children_recursive"):
+            for rel in sorted(q for q in k.procs if q > PID):
+                for kk in range(N):
+                    plans.append(("relative-vanish", kk, [simk.Fault(kk, "vanish", rel)]))
         requery = {rk % N for rk in case["requery_k"]} if N else set()
         requery.add(0)
         for kind, kk, faults in plans:
